@@ -3,4 +3,17 @@ package checks
 // Registry maps property ids to check entry points.
 var Registry = map[string]func(tier string) int{
 	"C03": C03,
+	"C04": C04,
+	"C05": C05,
+}
+
+// Probe dispatches child-process probes (scenarios that may die fatally).
+func Probe(name string) int {
+	switch name {
+	case "fkcycle-self":
+		return ProbeFkCycle("self")
+	case "fkcycle-two":
+		return ProbeFkCycle("two")
+	}
+	return 2
 }
